@@ -635,8 +635,7 @@ func clRun(cfg *config, toks []string) string {
 			if math.Abs(lat) < 80 && math.Abs(lon) <= 180 && dist > 0 && dist < 1000 && tol >= 0 && tol < 100 {
 				points = append(points, [2]float64{lat, lon}) // a reading at the start point itself
 				for _, fr := range []float64{0.35, -0.7, 0.9, 1.3, -1.6} {
-					var pla, plo float64
-					geodesic.WGS84.Direct(lat, lon, brg+90, fr*dist, &pla, &plo, nil)
+					pla, plo, _ := directIndep(lat, lon, brg+90, fr*dist)
 					mlo := 2*lon - plo
 					for mlo > 180 {
 						mlo -= 360
@@ -646,8 +645,7 @@ func clRun(cfg *config, toks []string) string {
 					}
 					points = append(points, [2]float64{pla, plo}, [2]float64{pla, mlo})
 					for _, side := range []float64{0.5, 1.5} {
-						var qla, qlo float64
-						geodesic.WGS84.Direct(pla, plo, brg, side*tol+0.02, &qla, &qlo, nil)
+						qla, qlo, _ := directIndep(pla, plo, brg, side*tol+0.02)
 						points = append(points, [2]float64{qla, qlo})
 					}
 				}
@@ -750,6 +748,7 @@ func clRun(cfg *config, toks []string) string {
 			fmt.Fprintf(os.Stderr, "DEBUG stderr:\n%s\n", errText)
 		}
 		want, wantHi := -1, -1
+		octant := ""
 		if okObs {
 			num := func(p string) float64 {
 				_, v, _ := clGet(obs, p)
@@ -757,9 +756,11 @@ func clRun(cfg *config, toks []string) string {
 				return math.Float64frombits(b)
 			}
 			lat, lon, brg, dist, tol := num("Start.Latitude"), num("Start.Longitude"), num("Start.Bearing"), num("Start.Distance"), num("Tolerance")
-			var lat1, lon1, lat2, lon2 float64
-			geodesic.WGS84.Direct(lat, lon, brg+90, dist, &lat1, &lon1, nil)
-			geodesic.WGS84.Direct(lat, lon, brg-90, dist, &lat2, &lon2, nil)
+			lat1, lon1, slip1 := directIndep(lat, lon, brg+90, dist)
+			lat2, lon2, slip2 := directIndep(lat, lon, brg-90, dist)
+			if slip1 || slip2 {
+				octant = " octant=1"
+			}
 			// readings within a guard band of the tolerance boundary (3% + 2 cm: the end points of the
 			// line are themselves computed, and the file stores 1e-7 degree integers) may go either way
 			pLo := geo.NewProcessor(geo.Tolerance(math.Max(0, tol*0.97-0.02)))
@@ -778,9 +779,35 @@ func clRun(cfg *config, toks []string) string {
 				}
 			}
 		}
-		extra = fmt.Sprintf(" hits=%d want=%d wanthi=%d", hits, want, wantHi)
+		extra = fmt.Sprintf(" hits=%d want=%d wanthi=%d%s", hits, want, wantHi, octant)
 	}
 	return fmt.Sprintf("exit=%d used=%s msg=%s obs=%s%s", exit, used, msg, obs, extra)
+}
+
+// directIndep: the end of a geodesic of length d from (lat, lon) at azimuth az, for the start line
+// the laptimes command is judged against. It comes from the geodesic library, but not at the
+// arguments where that library is known to slip (an azimuth that is an odd multiple of 45 degrees,
+// a latitude of exactly 45 degrees: recorded findings): those are moved by 1e-7 degrees, which moves
+// the end of a line of up to a kilometre by less than two micrometres; and the result is checked
+// against a plain spherical offset to within one percent of the length, so that the oracle does not
+// rest on the library's word alone.
+func directIndep(lat, lon, az, d float64) (float64, float64, bool) {
+	slip := false
+	if m := math.Mod(math.Abs(az), 90); m == 45 {
+		az += 1e-7
+		slip = true
+	}
+	if math.Abs(lat) == 45 {
+		lat += 1e-9
+		slip = true
+	}
+	var la, lo float64
+	geodesic.WGS84.Direct(lat, lon, az, d, &la, &lo, nil)
+	sl, so := offsetPoint(lat, lon, az, d, 6371008.8)
+	if gcDistLL(la, lo, sl, so)*6371008.8 > 0.01*math.Abs(d)+0.01 {
+		la, lo = sl, so // (never seen; keeps the oracle honest if the library slips elsewhere)
+	}
+	return la, lo, slip
 }
 
 func execCL(cfg *config, op string) string {
@@ -858,7 +885,8 @@ func clValue(r *rng, cmd string, o clOpt, src int) string {
 			}
 			return hexStr(strconv.FormatFloat(-0.75-float64(r.intn(5))*0.0001, 'f', -1, 64))
 		case strings.HasSuffix(o.path, "bearing"):
-			return hexStr(pick(r, []string{"0", "90", "45.5", "180", "271", "-30", "-150", "-90", "400"})) // any real number is a bearing
+			// any real number is a bearing (45 and its odd multiples: recorded finding, the geodesic library)
+			return hexStr(pick(r, []string{"0", "90", "45.5", "180", "271", "-30", "-150", "-90", "400", "30", "60", "45", "135", "-45"}))
 		case strings.HasSuffix(o.path, "distance"):
 			return hexStr(pick(r, []string{"10", "5", "25.5", "0"}))
 		}
@@ -1001,8 +1029,7 @@ func genCL(cfg *config, r *rng, i int, s *sink) string {
 						continue
 					}
 					for _, d := range []float64{3, -4, 8} {
-						var pla, plo float64
-						geodesic.WGS84.Direct(laf, lof, brg+90, d, &pla, &plo, nil)
+						pla, plo, _ := directIndep(laf, lof, brg+90, d)
 						mlo := 2*lof - plo
 						for mlo > 180 {
 							mlo -= 360
@@ -1063,6 +1090,10 @@ func corpusCL(cfg *config) []string {
 		"cl cmd=convert which=cwd F=decoder:s:" + hexStr("trackaddict") + ",encoder:s:" + hexStr("trackaddict") + " C=~ H=~ io=ff in=" + hexStr(cvDecoy),
 		"cl cmd=convert which=home F=~ C=~ H=~ io=fo in=" + hexStr(cvDecoy),
 		"cl cmd=gopro.laptimes which=cwd F=~ C=root.verbose:i:" + hexStr("0") + " H=~ io=ff in=" + hexStr("0.0000000,0.0000000;0.0000100,0.0000000"),
+		// recorded finding: a start line at a bearing of 45 degrees (its ends lie at azimuths 135 and -45)
+		"cl cmd=gopro.laptimes which=explicit F=~ C=gopro.laptimes.start.latitude:f:" + hexStr("50.8580") + ",gopro.laptimes.start.longitude:f:" + hexStr("-0.7526") +
+			",gopro.laptimes.start.bearing:f:" + hexStr("45") + ",gopro.laptimes.start.distance:i:" + hexStr("10") + ",gopro.laptimes.tolerance:f:" + hexStr("0.5") +
+			" H=~ io=ff in=" + hexStr("50.8580000,-0.7526000"),
 		// the built-in start line (0, 0) with a reading exactly on it
 		"cl cmd=gopro.laptimes which=none F=~ C=~ H=~ io=ff in=" + hexStr("0.0000000,0.0000000;0.0000100,0.0000100"),
 		// the settings as a JSON document given with --config
